@@ -210,6 +210,12 @@ func (s *Synchronizer) OnRemoteTimeout(timeout hotstuff.TimeoutMsg) {
 	currView := s.state.View()
 	defer s.timeouts.deleteOldViews(currView)
 
+	// the view signature must be the sender's own: somebody else's (valid) signature under this sender's name
+	// would later collide with that replica's own timeout when the certificate is assembled.
+	if !signedOnlyBy(timeout.ViewSignature, timeout.ID) {
+		s.logger.Infof("View timeout signature is not a single signature by the sender %d", timeout.ID)
+		return
+	}
 	if err := s.auth.Verify(timeout.ViewSignature, timeout.View.ToBytes()); err != nil {
 		s.logger.Infof("View timeout signature could not be verified: %v", err)
 		return
@@ -234,6 +240,15 @@ func (s *Synchronizer) OnRemoteTimeout(timeout hotstuff.TimeoutMsg) {
 
 	s.logger.Debugf("OnRemoteTimeout (second advance)")
 	s.advanceView(si)
+}
+
+// signedOnlyBy returns true if sig is present and contains exactly one signature, by the given replica.
+func signedOnlyBy(sig hotstuff.QuorumSignature, id hotstuff.ID) bool {
+	if sig == nil {
+		return false
+	}
+	participants := sig.Participants()
+	return participants.Len() == 1 && participants.Contains(id)
 }
 
 // OnNewView handles an incoming consensus.NewViewMsg
